@@ -121,7 +121,7 @@ def oracle(case, o):
             vals = [case["matrix"][i][j] for i in range(n) if (i, j) not in nan]
             want = col_stat(p["strategy"], vals, p.get("fill_value", 0.0))
             for i in range(n):
-                if (i, j) in nan and abs(Fraction(am[i][j]) - want) > abs(want) * Fraction(1, 2 ** 50):
+                if (i, j) in nan and am[i][j] == am[i][j] and abs(Fraction(am[i][j]) - want) > abs(want) * Fraction(1, 2 ** 50):
                     return (f"gap ({i},{j}) filled with {am[i][j]!r} but the {p['strategy']} of the observed values "
                             f"of that criterion is {want}")
     if o["forward_equal"] is not True:
@@ -162,6 +162,9 @@ def run(ctx):
             n, m = len(c["matrix"]), len(c["weights"])
             for j in range(m):
                 for i in range(n):
+                    if o["after"]["matrix"][i][j] != o["after"]["matrix"][i][j]:
+                        ctx.disagree(c, {"what": f"cell ({i},{j}) is NaN", "model": mcols[j][i]})
+                        break
                     a, b = Fraction(o["after"]["matrix"][i][j]), mcols[j][i]
                     if abs(a - b) > abs(b) * Fraction(1, 2 ** 50):
                         ctx.disagree(c, {"what": f"cell ({i},{j})", "impl": o["after"]["matrix"][i][j], "model": b})
